@@ -120,15 +120,6 @@ Section RoundTrip.
     destruct preserve; rewrite land_small; try reflexivity; change (2 ^ 12) with 4096; change (N.ones 12) with 4095 in Hm; lia.
   Qed.
 
-  Lemma mode_dir m : (m <=? 1023) = true ->
-    (if preserve then chmod_mode m else create_mode dir_create_bits umask m) = restored_mode umask preserve m.
-  Proof.
-    intro Hm. apply N.leb_le in Hm. unfold restored_mode, chmod_mode, create_mode, file_create_bits, dir_create_bits.
-    destruct preserve.
-    - change 4095 with (N.ones 12). apply land_small. change (2 ^ 12) with 4096. lia.
-    - change 1023 with (N.ones 10). rewrite land_small; [reflexivity|]. change (2 ^ 10) with 1024. lia.
-  Qed.
-
   (* ---------- mkdir_all ---------- *)
   Lemma mkdir_all_existing m f rp m' :
     fs_lookup f (rev rp) = Some (NDir m') -> mkdir_all umask m f rp = Ok f.
@@ -175,9 +166,9 @@ Section RoundTrip.
 
   (* ---------- expected ---------- *)
   Lemma expected_dir_cons m mt ch n p :
-    expected umask preserve (Dir m mt ch) (n :: p) =
-    match find_child n ch with Some c => expected umask preserve c p | None => None end.
-  Proof. unfold expected. simpl. destruct (find_child n ch); reflexivity. Qed.
+    expected_mid umask preserve (Dir m mt ch) (n :: p) =
+    match find_child n ch with Some c => expected_mid umask preserve c p | None => None end.
+  Proof. unfold expected_mid. simpl. destruct (find_child n ch); reflexivity. Qed.
 
   Lemma find_child_fresh n l : existsb (str_eqb n) (map fst l) = false -> find_child n l = None.
   Proof.
@@ -202,12 +193,12 @@ Section RoundTrip.
   Definition subtree_spec (t : tree) : Prop :=
     forall rel f,
       rel <> [] ->
-      wf_treeb t = true -> modes_okb t = true -> benignb isl isf rel t = true ->
+      wf_treeb t = true -> modes_okb t = true -> benignb pre isl isf rel t = true ->
       (forall q r, r <> [] -> rel = q ++ r -> exists m, fs_lookup f q = Some (NDir m)) ->
       (forall p, fs_lookup f (rel ++ p) = None) ->
       links_sound f ->
       exists f', X f (entries pre repro rel t) = Ok f' /\
-        (forall p, fs_lookup f' (rel ++ p) = expected umask preserve t p) /\
+        (forall p, fs_lookup f' (rel ++ p) = expected_mid umask preserve t p) /\
         (forall q, (forall p, q <> rel ++ p) -> fs_lookup f' q = fs_lookup f q) /\
         links_sound f'.
 
@@ -217,7 +208,7 @@ Section RoundTrip.
       names_nodupb (map fst l) = true ->
       forallb (fun nc => wf_treeb (snd nc)) l = true ->
       forallb (fun nc => modes_okb (snd nc)) l = true ->
-      forallb (fun nc => benignb isl isf (rel ++ [fst nc]) (snd nc)) l = true ->
+      forallb (fun nc => benignb pre isl isf (rel ++ [fst nc]) (snd nc)) l = true ->
       fs_lookup g rel = Some (NDir md) ->
       (forall q r, r <> [] -> rel = q ++ r -> exists m, fs_lookup g q = Some (NDir m)) ->
       (forall n p, existsb (str_eqb n) (map fst l) = true -> fs_lookup g (rel ++ n :: p) = None) ->
@@ -225,7 +216,7 @@ Section RoundTrip.
       exists g', X g (flat_map (fun nc => entries pre repro (rel ++ [fst nc]) (snd nc)) l) = Ok g' /\
         (forall n p, fs_lookup g' (rel ++ n :: p) =
                      match find_child n l with
-                     | Some c => expected umask preserve c p
+                     | Some c => expected_mid umask preserve c p
                      | None => fs_lookup g (rel ++ n :: p)
                      end) /\
         (forall q, (forall n p, q <> rel ++ n :: p) -> fs_lookup g' q = fs_lookup g q) /\
@@ -277,10 +268,10 @@ Section RoundTrip.
       rewrite Hrel, (parent_is_dir_true f rel Hne Hpre).
       eexists. split; [reflexivity|]. split; [|split].
       + intros [|n p].
-        * rewrite app_nil_r. unfold expected. simpl. rewrite <- (mode_file m Hmo).
+        * rewrite app_nil_r. unfold expected_mid. simpl. rewrite <- (mode_file m Hmo).
           destruct preserve; rewrite lookup_set_same; reflexivity.
         * assert (rel <> rel ++ n :: p) by (apply app_neq_longer; discriminate).
-          unfold expected. simpl.
+          unfold expected_mid. simpl.
           destruct preserve; repeat rewrite lookup_set_other by assumption; apply Hfresh.
       + intros q Hq. assert (rel <> q). { intro E. apply (Hq []). now rewrite app_nil_r. }
         destruct preserve; repeat rewrite lookup_set_other by assumption; reflexivity.
@@ -292,19 +283,21 @@ Section RoundTrip.
             apply path_eqb_spec in E; subst p; intros _; exact Hbe.
     - (* symlink *)
       simpl in Hbe.
-      apply andb_true_iff in Hbe as [Hbe Hq]. apply andb_true_iff in Hbe as [Hisl Habs].
+      apply andb_true_iff in Hbe as [Hbe Hq]. apply andb_true_iff in Hbe as [Hbe _].
+      apply andb_true_iff in Hbe as [Hisl Habs].
       apply negb_true_iff in Habs.
-      destruct (lexnorm (parent rel ++ split_slash tg)) as [q0|] eqn:Eq; [|discriminate].
+      destruct (link_target_path pre rel tg) as [q0|] eqn:Eq; [|discriminate].
       assert (Hrel : fs_lookup f rel = None) by (rewrite <- (app_nil_r rel); apply Hfresh).
       unfold X. simpl. unfold extract_entry. simpl.
       rewrite strip_prefix_app, (check_dirs_prefix_dirs f rel Hpre). simpl.
       unfold link_ok. rewrite Habs, Eq, (check_dirs_clear f Hls q0 [] Hq).
       rewrite Hrel, (parent_is_dir_true f rel Hne Hpre).
+      assert (is_root rel = false) as -> by (destruct rel; [contradiction|reflexivity]).
       eexists. split; [reflexivity|]. split; [|split].
       + intros [|n p].
         * rewrite app_nil_r, lookup_set_same. reflexivity.
         * rewrite lookup_set_other by (apply app_neq_longer; discriminate).
-          unfold expected. simpl. apply Hfresh.
+          unfold expected_mid. simpl. apply Hfresh.
       + intros q Hq'. rewrite lookup_set_other; [reflexivity|].
         intro E. apply (Hq' []). now rewrite app_nil_r.
       + destruct Hls as [Hl1 Hl2]. split.
@@ -317,23 +310,22 @@ Section RoundTrip.
       apply andb_true_iff in Hwf as [Hnd Hwf]. apply andb_true_iff in Hmo as [Hm Hmo].
       assert (Hrel : fs_lookup f rel = None) by (rewrite <- (app_nil_r rel); apply Hfresh).
       destruct (parent_is_dir_ok f rel Hne Hpre) as [mp Hpar].
-      set (f1 := fs_set f rel (NDir (create_mode dir_create_bits umask m))).
-      set (f2 := if preserve then fs_set f1 rel (NDir (chmod_mode m)) else f1).
+      set (f2 := fs_set f rel (NDir (mid_dir_mode umask m))).
       assert (Hstep : extract_entry pre umask preserve f (mkEntry (pre ++ rel) EDir m (hdr_time repro mt)) = Ok f2).
       { unfold extract_entry. simpl.
         rewrite strip_prefix_app, (check_dirs_prefix_dirs f rel Hpre). simpl.
-        rewrite (mkdir_all_fresh m f rel mp Hne Hrel Hpar). reflexivity. }
-      assert (H2rel : fs_lookup f2 rel = Some (NDir (restored_mode umask preserve m))).
-      { rewrite <- (mode_dir m Hm). unfold f2, f1. destruct preserve; rewrite lookup_set_same; reflexivity. }
+        rewrite (mkdir_all_fresh (N.lor m owner_rwx) f rel mp Hne Hrel Hpar). reflexivity. }
+      assert (H2rel : fs_lookup f2 rel = Some (NDir (mid_dir_mode umask m))).
+      { unfold f2. rewrite lookup_set_same. reflexivity. }
       assert (H2other : forall q, rel <> q -> fs_lookup f2 q = fs_lookup f q).
-      { intros q Hq. unfold f2, f1. destruct preserve; repeat rewrite lookup_set_other by exact Hq; reflexivity. }
+      { intros q Hq. unfold f2. rewrite lookup_set_other by exact Hq. reflexivity. }
       assert (H2ls : links_sound f2).
       { destruct Hls as [Hl1 Hl2]. split.
-        - intros p tg. unfold f2, f1. destruct preserve; repeat rewrite lookup_set;
+        - intros p tg. unfold f2. rewrite lookup_set;
             destruct (path_eqb rel p); try discriminate; apply Hl1.
-        - intros p c' m'. unfold f2, f1. destruct preserve; repeat rewrite lookup_set;
+        - intros p c' m'. unfold f2. rewrite lookup_set;
             destruct (path_eqb rel p); try discriminate; apply Hl2. }
-      destruct (children_ok rel ch IHch f2 (restored_mode umask preserve m)) as (g' & E' & L' & F' & S'); auto.
+      destruct (children_ok rel ch IHch f2 (mid_dir_mode umask m)) as (g' & E' & L' & F' & S'); auto.
       + intros q r Hr E. rewrite H2other; [eapply Hpre; eauto|].
         subst rel. intro E. symmetry in E. revert E. now apply app_neq_longer.
       + intros n p _. rewrite H2other by (apply app_neq_longer; discriminate). apply Hfresh.
@@ -348,96 +340,51 @@ Section RoundTrip.
           intro E. apply (Hq []). now rewrite app_nil_r.
   Qed.
 
-  (* ---------- the whole directory ---------- *)
-  Lemma roundtrip_entries m mt ch :
+  (* ---------- the whole directory, up to restoreDirModes ---------- *)
+  Lemma extract_list_entries m mt ch :
     let T := Dir m mt ch in
-    wf_treeb T = true -> modes_okb T = true -> benignb isl isf [] T = true ->
+    wf_treeb T = true -> modes_okb T = true -> benignb pre isl isf [] T = true ->
     links_sound (fs_init umask) ->
-    exists f', extract_prefix pre umask preserve (entries pre repro [] T) = Ok f' /\
-      forall p, fs_lookup f' p = expected_impl umask preserve T p.
+    exists f', extract_list pre umask preserve (fs_init umask) (entries pre repro [] T) = Ok f' /\
+      forall p, fs_lookup f' p = expected_mid_top umask preserve T p.
   Proof.
     intros T Hwf Hmo Hbe Hls0. subst T. simpl in Hwf, Hmo, Hbe.
     apply andb_true_iff in Hwf as [Hnd Hwf]. apply andb_true_iff in Hmo as [Hm Hmo].
     set (f0 := fs_init umask).
-    set (f2 := if preserve then fs_set f0 [] (NDir (chmod_mode m)) else f0).
-    set (md := if preserve then restored_mode umask preserve m else N.ldiff 511 umask).
-    assert (Hstep : extract_entry pre umask preserve f0 (mkEntry (pre ++ []) EDir m (hdr_time repro mt)) = Ok f2).
+    set (md := N.ldiff 511 umask).
+    assert (Hstep : extract_entry pre umask preserve f0 (mkEntry (pre ++ []) EDir m (hdr_time repro mt)) = Ok f0).
     { unfold extract_entry. simpl. rewrite strip_prefix_app. simpl. reflexivity. }
-    assert (H2rel : fs_lookup f2 [] = Some (NDir md)).
-    { unfold f2, md. destruct preserve eqn:Ep.
-      - rewrite lookup_set_same. f_equal. f_equal. unfold restored_mode, chmod_mode, file_create_bits.
-        apply N.leb_le in Hm. change 4095 with (N.ones 12). apply land_small. change (2 ^ 12) with 4096. lia.
-      - reflexivity. }
-    assert (H2other : forall q, [] <> q -> fs_lookup f2 q = None).
-    { intros q Hq. unfold f2. destruct preserve; [rewrite lookup_set_other by exact Hq|];
-        unfold f0, fs_init; simpl; destruct q; [contradiction|reflexivity|contradiction|reflexivity]. }
-    assert (H2ls : links_sound f2).
-    { destruct Hls0 as [Hl1 Hl2]. split.
-      - intros p tg. unfold f2. destruct preserve; [rewrite lookup_set; destruct (path_eqb [] p); [discriminate|]|];
-          apply Hl1.
-      - intros p c' m'. unfold f2. destruct preserve; [rewrite lookup_set; destruct (path_eqb [] p); [discriminate|]|];
-          apply Hl2. }
-    destruct (children_ok [] ch) with (g := f2) (md := md) as (g' & E' & L' & F' & S'); auto.
-    - clear. induction ch as [|nc ch IH]; constructor; [apply subtree_ok|exact IH].
-    - intros q r Hr E. symmetry in E. apply app_eq_nil in E as [_ E]. contradiction.
-    - intros n p _. apply H2other. discriminate.
+    assert (H2rel : fs_lookup f0 [] = Some (NDir md)) by reflexivity.
+    assert (H2other : forall q, [] <> q -> fs_lookup f0 q = None).
+    { intros q Hq. unfold f0, fs_init; simpl; destruct q; [contradiction|reflexivity]. }
+    assert (HF : Forall (fun nc => subtree_spec (snd nc)) ch).
+    { clear. induction ch as [|nc ch IH]; constructor; [apply subtree_ok|exact IH]. }
+    assert (Hpre0 : forall q r, r <> [] -> [] = q ++ r -> exists m0, fs_lookup f0 q = Some (NDir m0)).
+    { intros q r Hr E. symmetry in E. apply app_eq_nil in E as [_ E]. contradiction. }
+    assert (Hfresh0 : forall n p, existsb (str_eqb n) (map fst ch) = true -> fs_lookup f0 ([] ++ n :: p) = None).
+    { intros n p _. apply H2other. discriminate. }
+    destruct (children_ok [] ch HF f0 md Hnd Hwf Hmo Hbe H2rel Hpre0 Hfresh0 Hls0) as (g' & E' & L' & F' & S').
     - exists g'. split.
-      + unfold extract_prefix, X in *. simpl. fold f0. rewrite Hstep. exact E'.
+      + unfold X in *. simpl. fold f0. rewrite Hstep. exact E'.
       + intros [|n p].
-        * rewrite F' by (intros n p; discriminate). rewrite H2rel.
-          unfold expected_impl, md. destruct preserve; reflexivity.
+        * rewrite F' by (intros n p; discriminate). rewrite H2rel. reflexivity.
         * specialize (L' n p). simpl in L'. rewrite L'.
-          assert (expected_impl umask preserve (Dir m mt ch) (n :: p) = expected umask preserve (Dir m mt ch) (n :: p)) as ->
-            by (unfold expected_impl; destruct preserve; reflexivity).
+          change (expected_mid_top umask preserve (Dir m mt ch) (n :: p))
+            with (expected_mid umask preserve (Dir m mt ch) (n :: p)).
           rewrite expected_dir_cons. destruct (find_child n ch); [reflexivity|].
-          apply H2other. discriminate.
+          first [reflexivity | apply H2other; discriminate].
   Qed.
 End RoundTrip.
 
-(* ---------- top level: any directory tree with benign links ---------- *)
-Theorem roundtrip_impl pre umask preserve repro T :
-  is_dir T = true -> wf_treeb T = true -> modes_okb T = true -> benign_tree T = true ->
-  exists f', extract_prefix pre umask preserve (entries pre repro [] T) = Ok f' /\
-    forall p, fs_lookup f' p = expected_impl umask preserve T p.
+(* ---------- top level: any directory tree with benign links, up to restoreDirModes ---------- *)
+Theorem extract_list_mid pre umask preserve repro T :
+  is_dir T = true -> wf_treeb T = true -> modes_okb T = true -> benign_tree pre T = true ->
+  exists f', extract_list pre umask preserve (fs_init umask) (entries pre repro [] T) = Ok f' /\
+    forall p, fs_lookup f' p = expected_mid_top umask preserve T p.
 Proof.
   intros Hd Hwf Hmo Hbe. destruct T as [| |m mt ch]; try discriminate.
-  apply (roundtrip_entries pre umask preserve repro (links_of (Dir m mt ch)) (files_of (Dir m mt ch)) m mt ch Hwf Hmo Hbe).
+  apply (extract_list_entries pre umask preserve repro (links_of (Dir m mt ch)) (files_of (Dir m mt ch)) m mt ch Hwf Hmo Hbe).
   split; [intros p tg E|intros p c' m' E]; unfold fs_init in E; destruct p; simpl in E; discriminate.
-Qed.
-
-(* with PreservePermissions the restored directory is the source tree *)
-Corollary roundtrip_preserve pre umask repro T :
-  is_dir T = true -> wf_treeb T = true -> modes_okb T = true -> benign_tree T = true ->
-  exists f', extract_prefix pre umask true (entries pre repro [] T) = Ok f' /\
-    forall p, fs_lookup f' p = expected umask true T p.
-Proof.
-  intros Hd Hwf Hmo Hbe.
-  destruct (roundtrip_impl pre umask true repro T Hd Hwf Hmo Hbe) as (f' & E & L).
-  exists f'. split; [exact E|]. intro p. rewrite L. unfold expected_impl. destruct p; reflexivity.
-Qed.
-
-(* without it, everything below the directory itself is the source tree minus the umask *)
-Corollary roundtrip_umask pre umask repro T :
-  is_dir T = true -> wf_treeb T = true -> modes_okb T = true -> benign_tree T = true ->
-  exists f', extract_prefix pre umask false (entries pre repro [] T) = Ok f' /\
-    (forall p, p <> [] -> fs_lookup f' p = expected umask false T p) /\
-    (exists m, fs_lookup f' [] = Some (NDir m)).
-Proof.
-  intros Hd Hwf Hmo Hbe.
-  destruct (roundtrip_impl pre umask false repro T Hd Hwf Hmo Hbe) as (f' & E & L).
-  exists f'. split; [exact E|]. split.
-  - intros p Hp. rewrite L. unfold expected_impl. destruct p; [contradiction|reflexivity].
-  - rewrite L. destruct T; try discriminate. simpl. eauto.
-Qed.
-
-(* what Store.Add really walks: children sorted by name *)
-Corollary roundtrip_sorted pre umask preserve repro T :
-  is_dir T = true -> wf_treeb (sort_tree T) = true -> modes_okb (sort_tree T) = true ->
-  benign_tree (sort_tree T) = true ->
-  exists f', extract_prefix pre umask preserve (tar_entries pre repro T) = Ok f' /\
-    forall p, fs_lookup f' p = expected_impl umask preserve (sort_tree T) p.
-Proof.
-  intros Hd. apply roundtrip_impl. destruct T; try discriminate. reflexivity.
 Qed.
 
 (* ---------- reproducible tars ---------- *)
@@ -698,7 +645,7 @@ Definition root_mode_witness : tree := Dir 448 0 [(b "f", File (b "x") 420 0)].
 
 Theorem root_mode_refuted :
   exists T umask,
-    is_dir T = true /\ wf_treeb T = true /\ modes_okb T = true /\ benign_tree T = true /\
+    is_dir T = true /\ wf_treeb T = true /\ modes_okb T = true /\ benign_tree [b "d"] T = true /\
     exists f', extract_prefix [b "d"] umask false (tar_entries [b "d"] true T) = Ok f' /\
       fs_lookup f' [] <> expected umask false T [].
 Proof.
